@@ -15,6 +15,9 @@ class DumpError(Exception):
         self.exc = exc
 
 
+SCRIBBLE = [False]
+
+
 def real_dump(reader, schema=None, uidfield="u", with_stats=False, parts=None):
     schema = schema or reader.schema
     parts = parts or ("stored", "lengths", "vectors", "columns", "terms")
@@ -40,7 +43,13 @@ def real_dump(reader, schema=None, uidfield="u", with_stats=False, parts=None):
         dup = []
         for dn in docnums:
             where = "stored_fields(%d)" % dn
-            st = dict(reader.stored_fields(dn))
+            raw = reader.stored_fields(dn)
+            st = dict(raw)
+            if SCRIBBLE[0] and isinstance(raw, dict):
+                # the dictionary a caller receives is the caller's (applications decorate it before
+                # rendering): writing into it must not change what the index holds
+                raw.clear()
+                raw["zz_scribbled_by_caller"] = 1
             uid = st.get(uidfield)
             if uid in out["docs"]:
                 dup.append(uid)
